@@ -62,6 +62,8 @@ const GRACE_MS: u64 = 3_000;
 /// intents with `what` at or above this value are, while a search with an end of its own is running, the
 /// impatient GUI's early position + go (values below keep the meaning they have in the committed replay files)
 const EARLY_GO: u8 = 66;
+/// intents that first send a line the engine does not know, then behave like `isready`
+const NOISE: [u8; 2] = [132, 198];
 const DELAYS: [u64; 5] = [0, 1, 5, 20, 100];
 
 #[derive(Clone, Debug)]
@@ -137,7 +139,14 @@ impl C14 {
                 std::thread::sleep(Duration::from_millis(d));
             }
             ev.eval();
-            if searching.is_none() && it.what >= EARLY_GO {
+            if NOISE.contains(&it.what) {
+                // lines a GUI may send that this engine does not know (or that are empty): nothing is expected back, the
+                // session simply has to go on - the intent continues as an `isready` (both values are 0 mod 6 and mod 11)
+                let line = ["", "   ", "xyzzy", "debug on", "setoption name Hash value 16", "ponderhit", "register later", "\t", "setoption name UCI_AnalyseMode value true", "joho"][it.a as usize % 10];
+                s.send(line);
+                ev.class("unknown_or_empty_lines_sent");
+            }
+            if searching.is_none() && (EARLY_GO..EARLY_GO + 12).contains(&it.what) {
                 // the impatient GUI's pair: a go with a small budget of its own, and (below) the next go a moment later
                 if !game || dead {
                     s.send(&format!("position {}", POSITIONS[(it.a / 7) as usize % POSITIONS.len()]));
@@ -318,7 +327,7 @@ impl C14 {
                     let infinite = matches!(sr, Searching::Infinite);
                     // while searching: isready always; show/position/go only while an infinite search is
                     // known to be running (their refusal is then unambiguous); otherwise await the move
-                    let choice = if !infinite && it.what >= EARLY_GO { 6 } else { it.what % 6 };
+                    let choice = if !infinite && (EARLY_GO..EARLY_GO + 12).contains(&it.what) { 6 } else { it.what % 6 };
                     if choice == 0 {
                         during += 1;
                         s.send("isready");
@@ -566,7 +575,7 @@ impl Prop for C14 {
     }
 
     fn rule(&self) -> String {
-        "Cases (model-based): 3-16 GUI intents over {isready, uci, show, position, go depth|movetime|depth+movetime (budgets 0.3 s to 1 h, ended by the depth limit long before)|clock|infinite, ucinewgame, stop, wait} interpreted by a GUI state machine (no game / game set / searching) so that every expectation is unambiguous, each preceded by a generated delay of 0/1/5/20/100 ms, together with a generated delay 0/20/100 ms for each of nine schedule points in command_go and the search-thread epilogue (before_flag_raise, after_flag_raise, timer_wakeup, before_search_spawn, search_thread_start, after_search_return, after_flag_clear, after_game_drop, after_bestmove_print). Run against the real binary built with the hooks. History invariants: exactly one bestmove per accepted go (never `none` here), each within its deadline (depth: grace; timed: budget + hook delays + grace; infinite: only after stop - the curated positions have no forced mate or single reply, so an infinite search that announces a move by itself, or a `go movetime T` answered well before T, is a violation: that is how a stale timer of an earlier `go depth d movetime T` shows), isready answered while idle and while searching, show/position/go refused while an infinite search runs, ucinewgame while searching stops the search (its bestmove is there before the next readyok), quit while searching exits with status 0, a position + go sent right after a bestmove line was read are honoured, an impatient GUI's early `position` + `go` sent 0-20 ms after a go with a small budget of its own (depth 1/3, movetime 0-20, exhausted clocks) - without waiting for the answer - is either refused with an error line or accepted, and after `stop` + `readyok` the number of bestmove lines equals the number of accepted go commands with no panic on stderr (one intent in five is such a pair), a go (of any kind) on a root without legal moves - one position command in four sets a stalemated or checkmated root - is answered at once with exactly one `bestmove none` line, no stray bestmove at the end, no panic on stderr, exit status 0 after quit. evaluations = commands issued. Non-trivial session: at least two searches and (a stretched schedule point or a command sent while searching); distinct by command script and delays.".into()
+        "Cases (model-based): 3-16 GUI intents over {empty and unknown lines (`debug on`, `setoption …`, `ponderhit`, …: nothing expected back, the session just has to go on), isready, uci, show, position, go depth|movetime|depth+movetime (budgets 0.3 s to 1 h, ended by the depth limit long before)|clock|infinite, ucinewgame, stop, wait} interpreted by a GUI state machine (no game / game set / searching) so that every expectation is unambiguous, each preceded by a generated delay of 0/1/5/20/100 ms, together with a generated delay 0/20/100 ms for each of nine schedule points in command_go and the search-thread epilogue (before_flag_raise, after_flag_raise, timer_wakeup, before_search_spawn, search_thread_start, after_search_return, after_flag_clear, after_game_drop, after_bestmove_print). Run against the real binary built with the hooks. History invariants: exactly one bestmove per accepted go (never `none` here), each within its deadline (depth: grace; timed: budget + hook delays + grace; infinite: only after stop - the curated positions have no forced mate or single reply, so an infinite search that announces a move by itself, or a `go movetime T` answered well before T, is a violation: that is how a stale timer of an earlier `go depth d movetime T` shows), isready answered while idle and while searching, show/position/go refused while an infinite search runs, ucinewgame while searching stops the search (its bestmove is there before the next readyok), quit while searching exits with status 0, a position + go sent right after a bestmove line was read are honoured, an impatient GUI's early `position` + `go` sent 0-20 ms after a go with a small budget of its own (depth 1/3, movetime 0-20, exhausted clocks) - without waiting for the answer - is either refused with an error line or accepted, and after `stop` + `readyok` the number of bestmove lines equals the number of accepted go commands with no panic on stderr (one intent in five is such a pair), a go (of any kind) on a root without legal moves - one position command in four sets a stalemated or checkmated root - is answered at once with exactly one `bestmove none` line, no stray bestmove at the end, no panic on stderr, exit status 0 after quit. evaluations = commands issued. Non-trivial session: at least two searches and (a stretched schedule point or a command sent while searching); distinct by command script and delays.".into()
     }
 
     fn assumptions(&self) -> Vec<String> {
@@ -601,7 +610,7 @@ impl Prop for C14 {
     }
 
     fn strategy(&self, _ctx: &Ctx) -> BoxedStrategy<SessionCase> {
-        let intent = (prop_oneof![4 => 0u8..EARLY_GO, 1 => EARLY_GO..EARLY_GO + 12], any::<u16>(), any::<u16>(), 0u8..5).prop_map(|(what, a, b, delay)| Intent { what, a, b, delay });
+        let intent = (prop_oneof![16 => 0u8..EARLY_GO, 4 => EARLY_GO..EARLY_GO + 12, 1 => Just(NOISE[0]), 1 => Just(NOISE[1])], any::<u16>(), any::<u16>(), 0u8..5).prop_map(|(what, a, b, delay)| Intent { what, a, b, delay });
         let sched = vec((0u8..9, prop_oneof![5 => Just(0u8), 2 => Just(1u8), 2 => Just(2u8)]), 0..6);
         (sched, vec(intent, 3..17)).prop_map(|(sched, intents)| SessionCase { sched, intents, repeat: 0 }).boxed()
     }
